@@ -1,15 +1,19 @@
 /-
 C02 (call sites) — driver for the SheddingHandler (HTTP) and UnarySheddingInterceptor (zRPC) harnesses.
 
-  op:  req allow=<0/1> code=<n> panic=<0/1> [body=<0/1>] [again=<n>] [nilshed=<0/1>]
-  obs: status=<n> ran=<0/1> early=<n> pass=<n> fail=<n> allows=<n> st=<total>/<pass>/<drop> | st=reset
+  op:  req allow=<0/1> code=<n> panic=<end> [body=<0/1>] [again=<n>] [nilshed=<0/1>]
+       end: 0 returns | 1 panic(non-error value) | err / abort / dlerr / nilpanic panic(error value) | goexit runtime.Goexit()
+  obs: status=<n> ran=<0/1> fwd=<0/1> early=<n> pass=<n> fail=<n> allows=<n> st=<total>/<pass>/<drop> | st=reset
+       fwd=1: the wrapped handler received the very request (HTTP) / context and request (gRPC) the wrapper was given
 Model of rest/handler/sheddinghandler.go: nil shedder → the next handler is used as is (no Allow, no stat);
 refused → 503, next handler not run, promise never touched; admitted → next handler runs with the promise
 unresolved, then exactly one resolution: Fail if the last status code the handler set is 503, Pass otherwise
 (also when the handler panics: the resolution sits in a defer).
 
-  op:  rpc allow=<0/1> err=<kind> panic=<0/1>
-  obs: ret=<nil|same|ResourceExhausted:service-overloaded|panic|…> ran= early= pass= fail= allows= st=
+  op:  rpc allow=<0/1> err=<kind> panic=<end> [ctx=<bg|canceled|expired|future>]
+  obs: ret=<nil|same|ResourceExhausted:service-overloaded|panic|goexit|…> ran= fwd= early= pass= fail= allows= st=
+       err=ctxerr: the handler returns the Err() of the context it received (expired → DeadlineExceeded, canceled → Canceled,
+       bg / future → nil)
 Model of zrpc/internal/serverinterceptors/sheddinginterceptor.go: refused → status ResourceExhausted carrying
 ErrServiceOverloaded's text, handler not run; admitted → handler runs with the promise unresolved, its value and
 error are returned unchanged, then exactly one resolution in a defer: Fail iff the handler's error
@@ -77,11 +81,37 @@ def realOp (r : Report) (sec line : Nat) (sh : Shedder) (depth : Nat) (fails : B
     r := r.violation sec line s!"SheddingStat counted st={gotSt} for {depth} admitted requests ({if fails then "failed" else "passed"}), expected {showStat st}"
   return (r, sh')
 
-/-- error kinds of the rpc harness for which `errors.Is(err, context.DeadlineExceeded)` holds. -/
-def isDeadline (kind : String) : Bool := kind = "deadline" || kind = "wrapped" || kind = "joined"
+/-- error kinds of the rpc harness for which `errors.Is(err, context.DeadlineExceeded)` holds: the value itself, wrapped
+with %w, inside errors.Join, behind a custom `Is` method, inside a custom `Unwrap() []error`.  NOT: gRPC status errors
+(codes.DeadlineExceeded, status.FromContextError), os.ErrDeadlineExceeded, context.Canceled (bare or wrapped), a typed nil
+pointer, a zero-valued struct error. -/
+def isDeadline (kind : String) : Bool :=
+  kind = "deadline" || kind = "wrapped" || kind = "joined" || kind = "customis" || kind = "multiunwrap"
 
 def knownErrKinds : List String :=
-  ["nil", "deadline", "wrapped", "joined", "canceled", "stdeadline", "internal", "unavailable", "exhausted", "plain"]
+  ["nil", "deadline", "wrapped", "joined", "canceled", "stdeadline", "internal", "unavailable", "exhausted", "plain",
+   "typednil", "zero", "customis", "multiunwrap", "stctx", "wrapcanceled", "osdeadline"]
+
+/-- `err=ctxerr`: what the Err() of the call's context is. -/
+def ctxErrKind (ctx : String) : Option String :=
+  if ctx = "expired" then some "deadline" else if ctx = "canceled" then some "canceled"
+  else if ctx = "bg" ∨ ctx = "future" ∨ ctx = "" then some "nil" else none
+
+def effErrKind (args : List String) : Option String :=
+  match kv? args "err" with
+  | some "ctxerr" => ctxErrKind (kvStr args "ctx")
+  | k => k
+
+/-- the `panic=` token: how the wrapped handler ends. -/
+def parseEnd (tok : String) : Option End :=
+  if tok = "0" ∨ tok = "" then some .returns
+  else if tok = "1" then some .panicValue
+  else if tok = "err" ∨ tok = "abort" ∨ tok = "dlerr" ∨ tok = "nilpanic" then some .panicError
+  else if tok = "goexit" then some .goexit
+  else none
+
+def endName : End → String
+  | .returns => "returns" | .panicValue => "panic-value" | .panicError => "panic-error" | .goexit => "goexit"
 
 /-- the call-site monitor shared by both harnesses: an admitted request is resolved exactly once and only
 after its handler; a refused one is neither handled nor resolved; Allow is asked exactly once. -/
@@ -117,8 +147,11 @@ def runSection (r : Report) (s : Section) : Report := Id.run do
     | "real" :: args =>
       let depth := kvNat args "depth" 0
       if depth = 0 ∨ kvNat s.cfg "real" 0 ≠ 1 then r := r.mismatch s.idx l.idx "bad-op" (joinSp l.op) else
-      let pn := kvNat args "panic" 0 = 1
-      match kv? args "err" with
+      let some en := parseEnd (kvStr args "panic") | r := r.mismatch s.idx l.idx "bad-op" (joinSp l.op)
+      let pn := en.abnormal
+      if pn then r := r.addCover s!"real-end-{endName en}"
+      if (kv? args "err").isSome ∧ (effErrKind args).isNone then r := r.mismatch s.idx l.idx "bad-op" (joinSp l.op) else
+      match effErrKind args with
       | some kind =>
         if !knownErrKinds.contains kind then r := r.mismatch s.idx l.idx "bad-op" (joinSp l.op) else
         let fails := rpcFails (isDeadline kind) pn
@@ -134,8 +167,9 @@ def runSection (r : Report) (s : Section) : Report := Id.run do
         let (r', sh') := realOp r s.idx l.idx sh depth fails l.obs
         r := r'; sh := sh'
     | "req" :: args =>
-      match (kv? args "allow").bind String.toNat?, (kv? args "code").bind String.toNat?, (kv? args "panic").bind String.toNat? with
-      | some allow, some code, some pn =>
+      match (kv? args "allow").bind String.toNat?, (kv? args "code").bind String.toNat?, (kv? args "panic").bind parseEnd with
+      | some allow, some code, some en =>
+        let pn : Nat := if en.abnormal then 1 else 0
         let body := kvNat args "body" 0 = 1
         let again := kvNat args "again" 0
         let nilshed := kvNat args "nilshed" 0 = 1
@@ -144,8 +178,11 @@ def runSection (r : Report) (s : Section) : Report := Id.run do
         let m := httpServe nilshed (allow = 1) o
         let wire := m.status
         let cw := o.lastCode
-        let model := s!"status={m.status} ran={if m.ran then 1 else 0} early={m.early} {showRes m.res} allows={m.asked}"
+        let model := s!"status={m.status} ran={if m.ran then 1 else 0} fwd={if m.ran then 1 else 0} early={m.early} {showRes m.res} allows={m.asked}"
         let st := showStat m.stat
+        if m.ran ∧ !nilshed then r := r.addCover s!"http-end-{endName en}"
+        if m.ran ∧ kvNat l.obs "fwd" 9 ≠ 1 then
+          r := r.violation s.idx l.idx "the wrapped handler ran on a different request than the one the wrapper was given"
         if pre ≠ 0 ∧ !nilshed ∧ allow = 1 then r := r.addCover (if pre = 503 then "http-inherited-writer-503" else "http-inherited-writer")
         r := r.addCover (if nilshed then "http-nil-shedder" else if allow = 0 then "refused"
                          else if pn = 1 then (if cw = 503 then "panic-after-503" else "panic")
@@ -166,15 +203,22 @@ def runSection (r : Report) (s : Section) : Report := Id.run do
           r := r.violation s.idx l.idx s!"refused request did not get 503 (status={kvNat l.obs "status" 0})"
       | _, _, _ => r := r.mismatch s.idx l.idx "bad-op" (joinSp l.op)
     | "rpc" :: args =>
-      match (kv? args "allow").bind String.toNat?, kv? args "err", (kv? args "panic").bind String.toNat? with
-      | some allow, some kind, some pn =>
+      match (kv? args "allow").bind String.toNat?, effErrKind args, (kv? args "panic").bind parseEnd with
+      | some allow, some kind, some en =>
         if !knownErrKinds.contains kind then r := r.mismatch s.idx l.idx "bad-op" (joinSp l.op) else
-        let dl := rpcFails (isDeadline kind) (pn = 1)
-        let m := rpcServe (allow = 1) (isDeadline kind) (pn = 1)
-        let ret := if allow = 0 then "ResourceExhausted:service-overloaded" else if pn = 1 then "panic" else if kind = "nil" then "nil" else "same"
-        let model := s!"ret={ret} ran={if m.ran then 1 else 0} early={m.early} {showRes m.res} allows={m.asked}"
+        let pn : Nat := if en.abnormal then 1 else 0
+        let dl := rpcFails (isDeadline kind) en.abnormal
+        let m := rpcServe (allow = 1) (isDeadline kind) en.abnormal
+        let ret := if allow = 0 then "ResourceExhausted:service-overloaded" else if en = .goexit then "goexit" else if pn = 1 then "panic"
+                   else if kind = "nil" then "nil" else "same"
+        let model := s!"ret={ret} ran={if m.ran then 1 else 0} fwd={if m.ran then 1 else 0} early={m.early} {showRes m.res} allows={m.asked}"
         let st := showStat m.stat
-        r := r.addCover (if allow = 0 then "rpc-refused" else if pn = 1 then "rpc-panic" else s!"rpc-err-{kind}")
+        r := r.addCover (if allow = 0 then "rpc-refused" else if pn = 1 then s!"rpc-end-{endName en}" else s!"rpc-err-{kind}")
+        if allow = 1 ∧ (kv? args "ctx").isSome then r := r.addCover s!"rpc-ctx-{kvStr args "ctx"}"
+        if allow = 1 ∧ kv? args "err" = some "ctxerr" then r := r.addCover s!"rpc-err-ctxerr-{kvStr args "ctx"}"
+        if allow = 1 ∧ kvStr args "panic" = "dlerr" then r := r.addCover "rpc-panic-with-deadline-error"
+        if m.ran ∧ kvNat l.obs "fwd" 9 ≠ 1 then
+          r := r.violation s.idx l.idx "the wrapped handler was called with a different context or request than the interceptor was given"
         if allow = 1 then r := r.addCover (if dl then "rpc-fail" else "rpc-pass")
         let gotSt := kvStr l.obs "st"
         if gotSt = "reset" then r := r.addCover "stat-reset"
@@ -184,7 +228,7 @@ def runSection (r : Report) (s : Section) : Report := Id.run do
         if gotSt ≠ "reset" ∧ s!"st={gotSt}" ≠ st then
           r := r.violation s.idx l.idx s!"SheddingStat counted st={gotSt}, expected {st} (total +1 per call, pass +1 with Pass, drop +1 with a refusal)"
         if allow = 1 ∧ kvNat l.obs "pass" 99 + kvNat l.obs "fail" 99 = 1 ∧ (kvNat l.obs "fail" 99 = 1) ≠ dl then
-          r := r.violation s.idx l.idx s!"call ending with err={kind} panic={pn} was resolved by {if kvNat l.obs "fail" 99 = 1 then "Fail" else "Pass"} (Fail iff the handler returned an error that is context.DeadlineExceeded)"
+          r := r.violation s.idx l.idx s!"call ending with err={kind} end={endName en} was resolved by {if kvNat l.obs "fail" 99 = 1 then "Fail" else "Pass"} (Fail iff the handler returned an error that is context.DeadlineExceeded)"
         -- the documented refusal: a ResourceExhausted status
         if allow = 0 ∧ !(kvStr l.obs "ret").startsWith "ResourceExhausted:" then
           r := r.violation s.idx l.idx s!"refused rpc did not return codes.ResourceExhausted (ret={kvStr l.obs "ret"})"
